@@ -34,7 +34,13 @@ RULE = (
     "empty/own PATH first/own PATH last/PATH without it/no PATH - the witness that ran is identified by its directory; 40% of the multi-server ones as FAMILIES: servers sharing command and args "
     "and differing only in env / identical twins / sharing env and differing in args or command; args drawn from spaces/quotes/shell metacharacters/Unicode/empty "
     "strings/newlines; env absent/empty/1..3 values; timeout absent/int/float/string-number; extra members at every level) "
-    "x entry point {load_config+stdio_client+send_initialize, __main__.test_server, server_manager.run_command} x "
+    "x entry point {load_config+stdio_client+send_initialize, __main__.test_server, server_manager.run_command, "
+    "__main__.main (argv: --config/--server, -c/-s, default configuration discovery in the cwd, default server name)} x "
+    "USAGE {config file written compact/CRLF/indented/raw UTF-8, file and directory names with spaces/%s/{0}, verbose, "
+    "witness with tools/resources/prompts capabilities whose lists succeed or fail, command function named "
+    "interactive_mode / chat_run / raising, user_specified absent/None/[]/subset/unknown, the entry run twice, host "
+    "environment with '()' values / missing members} x VALUES {falsy and type-twin names/args/env values/timeouts (0, "
+    "0.0, '0', null), env null, magic strings from the anchored sources, format-hostile text, 100 kB strings} x "
     "{valid, missing file, invalid JSON (6 shapes), unknown server name}; a witness child records argv/environment/"
     "methods; non-trivial = distinct case whose configuration is valid and names at least one server"
 )
@@ -49,20 +55,33 @@ ASSUMPTIONS = [
     "'reaches the initialize handshake' is read as: the launched child receives an `initialize` request",
 ]
 
-ENTRIES = ["loader", "cliTest", "runner"]
-NAMES = ["sqlite", "db", "my server", "sérveur", "a.b", "S", "echo-1", "服务", "x" * 40]
+ENTRIES = ["loader", "cliTest", "runner", "cliMain"]
+LONG = "x" * 100_000     # one argument / one value near the kernel's per-string limit (128 KiB)
+NAMES = ["sqlite", "db", "my server", "sérveur", "a.b", "S", "echo-1", "服务", "x" * 40,
+         # falsy-looking / type-twin / harvested from the code under test / format-hostile
+         "0", "False", "null", "None", "7", "7.0", "true", "mcpServers", "command", "args", "env", "timeout",
+         "servers", "interactive_mode", "chat_run", "cancel scope", "%s", "{0}", "{}", "a\nb", "x\u2028y", "q'\"q"]
 ARGS = [
     "", " ", "a b", "--flag=va lue", "'single'", '"double"', "$(echo hi)", "`x`", "héllo", "日本語",
     "\U0001f600", "-", "--", "a\\b", "tab\there", "new\nline", "*", "~", ";", "| cat", "&&", "--port", "8080",
     "$HOME", "%PATH%", "a=b", "\\", "'", '"',
+    "0", "false", "null", "None", "7", "7.0", "true", "[]", "{}", "%", "%s %d", "{0}", "{name}", "\r\n", "\u2028",
+    "\u2029", "\u0085", "mcpServers", "command", "--config", "--server", "--verbose", "-v", "-c", "-s", "-l",
+    "cancel scope", "json object must be str", "()", "() { :; }", "LOG_LEVEL=ERROR",
 ]
-ENV_KEYS = ["FOO", "BAR_1", "PATH", "LOG_LEVEL", "HOME", "X", "lower_case", "MCP_TOKEN"]
-ENV_VALS = ["", "1", "a b", "q\"'q", "=", "/usr/bin:/bin", "ERROR", "debug", "ü", "$HOME", "x" * 200]
-TIMEOUTS = [None, 1, 30, 120, 0.5, 2.25, 7.0, "5", "2.5", "10.0", "0.125"]
+ENV_KEYS = ["FOO", "BAR_1", "PATH", "LOG_LEVEL", "HOME", "X", "lower_case", "MCP_TOKEN",
+            "LOGGING_LEVEL", "LOGNAME", "SHELL", "TERM", "USER", "APPDATA", "0", "env", "command", "%s"]
+ENV_VALS = ["", "1", "a b", "q\"'q", "=", "/usr/bin:/bin", "ERROR", "debug", "ü", "$HOME", "x" * 200,
+            "0", "false", "null", "CRITICAL", "critical", "Error", "WARNING", "()", "() { :; }; x", "%s %d", "{0}",
+            "\r\n", "\u2028", "a\nb"]
+TIMEOUTS = [None, 1, 30, 120, 0.5, 2.25, 7.0, "5", "2.5", "10.0", "0.125",
+            0, 0.0, "0", "0.0", 7, "7", "7.0", 0.001, "1e3", "NULL"]     # "NULL": the member is present with value null
 SERVER_EXTRAS = [("description", "a server"), ("disabled", False), ("cwd", "/nonexistent"), ("transport", "stdio"),
-                 ("url", None), ("tags", ["a", "b"]), ("Command", "decoy"), ("ARGS", ["decoy"]), ("Env", {"A": "decoy"})]
+                 ("url", None), ("tags", ["a", "b"]), ("Command", "decoy"), ("ARGS", ["decoy"]), ("Env", {"A": "decoy"}),
+                 ("", "empty member name"), ("command ", "decoy"), ("timeouts", 0), ("enabled", 0), ("note", "%s {0}\n")]
 TOP_EXTRAS = [("version", 1), ("$schema", "http://example/schema"), ("servers", {"decoy": {"command": "false"}}),
-              ("defaults", {"timeout": 3}), ("mcpservers", {})]
+              ("defaults", {"timeout": 3}), ("mcpservers", {}), ("mcpServers ", {"decoy": {"command": "false"}}),
+              ("", None), ("timeout", 0)]
 INVALID_TEXTS = ["", "{", "{'mcpServers': {}}", "not json at all", "[1, 2,]", "\ufeff{}"]
 
 
@@ -79,14 +98,22 @@ def gen_doc(rng, nservers=None):
             sc["args"] = [rng.choice(ARGS) for _ in range(rng.randint(1, 3))]
         elif am == "many":
             sc["args"] = [rng.choice(ARGS) for _ in range(rng.randint(4, 8))]
-        em = rng.choice(["absent", "empty", "values", "values"])
+        em = rng.choice(["absent", "empty", "values", "values", "values", "null"])
         if em == "empty":
             sc["env"] = {}
+        elif em == "null":
+            sc["env"] = None
         elif em == "values":
             sc["env"] = {k: rng.choice(ENV_VALS) for k in rng.sample(ENV_KEYS, rng.randint(1, 3))}
         t = rng.choice(TIMEOUTS)
-        if t is not None:
+        if t == "NULL":
+            sc["timeout"] = None
+        elif t is not None:
             sc["timeout"] = t
+        if rng.random() < 0.03:
+            sc["args"] = list(sc.get("args", [])) + [LONG]
+        if rng.random() < 0.03 and sc.get("env"):
+            sc["env"][rng.choice(list(sc["env"]))] = LONG
         for k, v in rng.sample(SERVER_EXTRAS, rng.choice([0, 0, 1, 2])):
             sc[k] = v
         items = list(sc.items())
@@ -100,6 +127,50 @@ def gen_doc(rng, nservers=None):
     items = list(doc.items())
     rng.shuffle(items)
     return dict(items)
+
+
+STYLES = ["ascii", "compact", "crlf", "spaced", "pretty-utf8"]
+CFG_NAMES = ["config.json", "server_config.json", "mcp_config.json", "conf %s {0}.json", "my config.json", "cfgé.json"]
+CFG_DIRS = ["conf", "dir with space", "%d{}"]
+DISCOVERABLE = ["server_config.json", "mcp_config.json", "config.json"]
+WITNESS_MODES = [None, None, {"caps": ["tools", "resources", "prompts"], "lists": "ok"},
+                 {"caps": ["tools", "resources", "prompts"], "lists": "error"},
+                 {"caps": ["tools"], "lists": "ok", "instructions": "use %s {0} wisely\n\u2028"},
+                 {"caps": ["prompts", "resources"], "lists": "ok", "instructions": ""}]
+HOST_ENVS = [{"LOGNAME": "() { :; }; x", "TERM": ""}, {"SHELL": None, "USER": "u s e r"}, {"HOME": "()", "TERM": "xterm"}]
+
+
+def decorate(rng, case):
+    """ways of USING the entry points that do not change what has to be launched"""
+    c = dict(case)
+    e = c["entry"]
+    if c["file"] == "ok":
+        c["style"] = rng.choice(STYLES)
+    c["cfgname"] = rng.choice(CFG_NAMES)
+    c["cfgdir"] = rng.choice(CFG_DIRS)
+    if e in ("cliTest", "cliMain"):
+        c["verbose"] = rng.random() < 0.4
+        m = rng.choice(WITNESS_MODES)
+        if m is not None and c["file"] == "ok":
+            c["witness_mode"] = m
+    if e == "cliMain":
+        modes = ["explicit", "short", "discover"]
+        if c["names"] == ["sqlite"]:
+            modes.append("default-server")
+        c["main_mode"] = rng.choice(modes)
+        if c["main_mode"] == "discover":
+            c["cfgname"] = rng.choice(DISCOVERABLE)
+    if e == "runner":
+        c["cmdfunc"] = rng.choice(["plain", "plain", "interactive_mode", "chat_run", "raises"])
+        us = rng.choice(["absent", "none", "empty", "first", "all", "ghost"])
+        if us != "absent":
+            c["user_specified"] = {"none": None, "empty": [], "first": c["names"][:1], "all": list(c["names"]),
+                                   "ghost": ["ghost"]}[us]
+    if rng.random() < 0.12 and c["expect"] == "valid":
+        c["repeat"] = 2
+    if rng.random() < 0.15:
+        c["host_env"] = rng.choice(HOST_ENVS)
+    return c
 
 
 def relate(rng, servers):
@@ -168,7 +239,9 @@ def gen_bare_doc(rng):
         elif how == "host-first":
             sc["env"] = {"PATH": ":".join(f"@D{i}" for i in (host or [0])) + f":@D{d}", "HOME": "/nonexistent"}
         t = rng.choice(TIMEOUTS)
-        if t is not None:
+        if t == "NULL":
+            sc["timeout"] = None
+        elif t is not None:
             sc["timeout"] = t
         servers[name] = sc
     return {"mcpServers": servers}, {"name": BARE, "dirs": dirs, "host": host}
@@ -204,7 +277,8 @@ def malformed_cases(rng, doc, which=None):
                 t = rng.choice(INVALID_TEXTS + [text[: rng.randrange(1, len(text))], text + ",", text + text])
                 out.append({"entry": e, "file": "invalid", "text": t, "names": sel, "expect": "invalid-json"})
             else:
-                unk = rng.choice(["nope", "", names[0].upper() + "_", names[0] + " ", "mcpServers", "command"])
+                unk = rng.choice([u for u in ["nope", "", names[0].upper() + "_", names[0] + " ", " " + names[0], "mcpServers",
+                                              "command", "default", "0", "None"] if u not in names and "other-" + u not in names])
                 d = doc
                 if rng.random() < 0.25:
                     d = {k: v for k, v in doc.items() if k != "mcpServers"}  # no mcpServers member at all
@@ -332,19 +406,40 @@ class Entry(Suite):
             for e in ENTRIES:
                 out.append({"entry": e, "file": "ok", "doc": d, "names": list(d["mcpServers"]) if e == "runner" else [list(d["mcpServers"])[-1]],
                             "expect": "valid"})
+        # the command line as a user types it: default server name, discovered configuration, short options
+        for mode in ("default-server", "discover", "short", "explicit"):
+            out.append({"entry": "cliMain", "file": "ok", "doc": d0, "names": ["sqlite"], "expect": "valid", "main_mode": mode,
+                        "cfgname": "server_config.json" if mode == "discover" else "config.json", "verbose": mode == "short",
+                        "witness_mode": WITNESS_MODES[2 + (mode == "short")]})
+        for cf in ("interactive_mode", "chat_run", "raises"):
+            out.append({"entry": "runner", "file": "ok", "doc": d3, "names": ["q", "p", "r"], "expect": "valid", "cmdfunc": cf,
+                        "user_specified": ["p"], "repeat": 2 if cf == "chat_run" else 1})
         nconf = {"quick": 40, "thorough": 400, "search": 120}[budget]
         for i in range(nconf):
             if i % 5 == 4:
                 doc, bare = gen_bare_doc(rng)
-                out += valid_cases(rng, doc, bare)
+                out += [decorate(rng, c) for c in valid_cases(rng, doc, bare)]
                 continue
             doc = gen_doc(rng)
-            out += valid_cases(rng, doc)
+            out += [decorate(rng, c) for c in valid_cases(rng, doc)]
             if budget == "quick":
                 if i < 6:
-                    out += malformed_cases(rng, doc)
+                    out += [decorate(rng, c) for c in malformed_cases(rng, doc)]
             elif i % 4 == 0:
-                out += malformed_cases(rng, doc)
+                out += [decorate(rng, c) for c in malformed_cases(rng, doc)]
+        cov = {}
+        for c in out:
+            for k in ("style", "cfgname", "main_mode", "cmdfunc", "verbose", "repeat"):
+                if k in c:
+                    cov[f"{k}={c[k]}"] = cov.get(f"{k}={c[k]}", 0) + 1
+            if "witness_mode" in c:
+                key = "witness=" + "+".join(c["witness_mode"].get("caps", [])) + "/" + c["witness_mode"].get("lists", "-")
+                cov[key] = cov.get(key, 0) + 1
+            if "user_specified" in c:
+                cov["user_specified=given"] = cov.get("user_specified=given", 0) + 1
+            if "host_env" in c:
+                cov["host_env"] = cov.get("host_env", 0) + 1
+        ctx.notes.append("usage coverage: " + ", ".join(f"{k}:{v}" for k, v in sorted(cov.items())))
         return out
 
     def impl_batch(self, cases):
@@ -363,7 +458,7 @@ class Entry(Suite):
             f = {"k": "missing"}
         else:
             f = {"k": "invalid"}
-        entry = case["entry"]
+        entry = "cliTest" if case["entry"] == "cliMain" else case["entry"]
         return {"m": "config", "entry": entry, "file": f, "names": case["names"], "dflt": o["default_env"],
                 "files": model_files(case)}
 
@@ -371,7 +466,8 @@ class Entry(Suite):
         if o.get("hang"):
             return "entry point did not return"
         a = sorted(_launch_key(l) for l in drop_unresolvable(case, o["launches"], o["default_env"]))
-        b = sorted(_launch_key({"cmd": _model_cmd(l["argv"][0]), "argv": l["argv"][1:], "env": l["env"]}) for l in m["launches"])
+        b = sorted(_launch_key({"cmd": _model_cmd(l["argv"][0]), "argv": l["argv"][1:], "env": l["env"]}) for l in m["launches"]
+                   for _ in range(case.get("repeat", 1)))
         if a != b:
             return "launches differ"
         if any(l["handshake"] for l in m["launches"]) != any(l["init"] for l in o["launches"]) or \
@@ -406,7 +502,7 @@ class Entry(Suite):
         if o.get("hang"):
             return (f"hang/{e}", f"{e} did not return within {H.ENTRY_TIMEOUT_S + 30:.0f} s", None)
         if case["expect"] == "valid":
-            want = expected_launches(case, o["default_env"])
+            want = expected_launches(case, o["default_env"]) * case.get("repeat", 1)
             got = drop_unresolvable(case, o["launches"], o["default_env"])
             wk = sorted(_launch_key(l) for l in want)
             gk = sorted(_launch_key(l) for l in got)
@@ -419,7 +515,7 @@ class Entry(Suite):
                             rest_w.remove(w)
                             rest_g.remove(g)
                             break
-                names_w = [n for n, w in zip(case["names"], want) if any(w is x for x in rest_w)]
+                names_w = [n for n, w in zip(case["names"] * case.get("repeat", 1), want) if any(w is x for x in rest_w)]
                 if got and len(got) < len(want) and not rest_g and all(
                         any(g["cmd"] == w["cmd"] and g["argv"] == w["argv"] for g in got) for w in rest_w):
                     return (f"merged-launch/{e}", f"{e}: {len(want)} servers requested, {len(got)} launched; {names_w} share "
@@ -471,16 +567,30 @@ class Entry(Suite):
         if case["expect"] != "valid":
             return f"{case['entry']}/{case['expect']}"
         sc = case["doc"]["mcpServers"][case["names"][0]]
-        env = "absent" if "env" not in sc else ("empty" if not sc["env"] else "values")
+        env = "absent" if "env" not in sc else ("null" if sc["env"] is None else "empty" if not sc["env"] else "values")
         t = sc.get("timeout")
-        tk = "absent" if t is None else type(t).__name__
+        tk = ("absent" if "timeout" not in sc else "null") if t is None else type(t).__name__ + ("0" if t in (0, "0", "0.0") else "")
         fam = "/bare" if case.get("bare") else ("/family" if is_family(case["doc"]) else "")
-        return f"{case['entry']}/valid/env-{env}/timeout-{tk}/named{len(case['names'])}of{len(case['doc']['mcpServers'])}{fam}"
+        e = case["entry"]
+        if e == "cliMain":
+            e += ":" + case.get("main_mode", "explicit")
+        elif e == "runner" and case.get("cmdfunc", "plain") != "plain":
+            e += ":" + case["cmdfunc"]
+        elif e == "cliTest" and case.get("witness_mode"):
+            e += ":caps-" + case["witness_mode"].get("lists", "-")
+        return f"{e}/valid/env-{env}/timeout-{tk}{fam}{'/x%d' % case['repeat'] if case.get('repeat', 1) > 1 else ''}"
 
     def nontrivial(self, case, o):
         return case["expect"] == "valid"
 
     def shrink_candidates(self, case):
+        for k in ("host_env", "repeat", "witness_mode", "verbose", "user_specified", "cmdfunc", "style", "cfgname", "cfgdir"):
+            if k in case and not (k == "cfgname" and case.get("main_mode") == "discover"):
+                yield {a: b for a, b in case.items() if a != k}
+        if case.get("main_mode") not in (None, "explicit"):
+            yield dict({a: b for a, b in case.items() if a != "cfgname"}, main_mode="explicit")
+        if case["entry"] == "cliMain":
+            yield dict({a: b for a, b in case.items() if a != "main_mode"}, entry="cliTest")
         if case["file"] != "ok":
             return
         doc = case["doc"]
